@@ -38,7 +38,7 @@ func TestConcurrentPeers(t *testing.T) {
 		for i := 0; i < c.Alpha; i++ {
 			txs[i] = []byte(strings.Repeat(string(rune(letter(i))), c.Lens[i]))
 			a.alpha[string(txs[i])] = i
-			a.tab[i] = genVerdict(rt)
+			a.tab[i] = genVerdict(rt, c)
 		}
 		nPeers := rapid.IntRange(2, 4).Draw(rt, "peers")
 		plans := make([][]int, nPeers)
